@@ -267,11 +267,11 @@ func htlcFamily() family {
 		M,
 		{K: "HtlcCreate", A: 0, B: 1, T: 0, V: 10},
 		{K: "HtlcCreate", A: 2, B: 1, T: 1, V: 7, S: "sha256"},
-		{K: "HtlcUnlock", A: 1, B: 0},            // beneficiary, right preimage
+		{K: "HtlcUnlock", A: 1, B: 0},             // beneficiary, right preimage
 		{K: "HtlcUnlock", A: 1, B: 0, S: "wrong"}, // wrong preimage
-		{K: "HtlcUnlock", A: 3, B: 0},            // proxy unlock by a stranger with the right preimage
+		{K: "HtlcUnlock", A: 3, B: 0},             // proxy unlock by a stranger with the right preimage
 		{K: "HtlcUnlock", A: 1, B: 1, S: "long"},
-		{K: "HtlcUnlock", A: 3, B: 1}, // proxy unlock of the long-lived entry
+		{K: "HtlcUnlock", A: 3, B: 1},  // proxy unlock of the long-lived entry
 		{K: "HtlcReclaim", A: 0, B: 0}, // depositor
 		{K: "HtlcReclaim", A: 3, B: 0}, // stranger
 		{K: "HtlcReclaim", A: 2, B: 1},
